@@ -802,6 +802,9 @@ evaluate() const {
         return Result(r1.as_integer() - r2.as_integer());
       }
 
+    case '^':
+      return Result(r1.as_integer() ^ r2.as_integer());
+
     case '|':
       return Result(r1.as_integer() | r2.as_integer());
 
@@ -1215,6 +1218,7 @@ determine_type() const {
 
     case '%':
     case '|':
+    case '^':
     case '&':
     case LSHIFT:
     case RSHIFT:
